@@ -47,11 +47,30 @@ def gen_cases(tier, seed):
             W = dev["film"].get("w", 2 * dev["film"].get("a", 1.0))
             H = dev["film"].get("h", 2 * dev["film"].get("b", 1.0))
             s = 0.10 * min(W, H)
-            dev["holes"][0] = {"name": "hole0", "kind": "union", "parts": [
-                {"kind": "box", "w": 2.4 * s, "h": 0.9 * s, "center": [c[0], c[1] - 0.9 * s], "points": 16},
-                {"kind": "box", "w": 0.5 * s, "h": 2.4 * s, "center": [c[0] - 0.95 * s, c[1] + 0.2 * s], "points": 16},
-                {"kind": "box", "w": 0.5 * s, "h": 2.4 * s, "center": [c[0] + 0.95 * s, c[1] + 0.2 * s], "points": 16}], "resample": 40}
-        post = [None, "remesh", "translate_inplace", "translation_context", None, "remesh", None, "translate_inplace"][k % 8]
+            corners = [(-1.2, -1.35), (1.2, -1.35), (1.2, 1.4), (0.7, 1.4), (0.7, -0.45), (-0.7, -0.45), (-0.7, 1.4), (-1.2, 1.4)]
+            xy = []
+            for (x0, y0), (x1, y1) in zip(corners, corners[1:] + corners[:1]):
+                nseg = max(1, int(round(np.hypot(x1 - x0, y1 - y0) / 0.6)))
+                for q in range(nseg):
+                    xy.append([c[0] + s * (x0 + (x1 - x0) * q / nseg), c[1] + s * (y0 + (y1 - y0) * q / nseg)])
+            dev["holes"][0] = {"name": "hole0", "kind": "points", "xy": xy, "nonconvex": True}
+        post = [None, "remesh", "translate_inplace", "translation_context", "roundtrip", "remesh", None, "translate_inplace"][k % 8]
+        if k % 3 == 0:
+            # device away from the origin
+            dev["offset"] = [float(rng.uniform(-30, 30)) * dev["layer"]["xi"], float(rng.uniform(-30, 30)) * dev["layer"]["xi"]]
+        if k % 5 == 1:
+            # no refinement requested: the mesh density comes from the outline vertices only
+            dev["mesh"]["max_edge_length"] = 0.0
+            dev["mesh"]["min_points"] = None
+        if fk == "box" and k % 4 == 3:
+            dev["film"]["points"] = 4  # outline given by its corners; boundary sites are inserted by the mesher
+        if dev["terminals"] and k % 2 == 0:
+            # a thick contact pad reaching into the film instead of a thin sliver
+            t = dev["terminals"][0]
+            if t["w"] < t["h"]:
+                t["w"] = 0.35 * dev["film"]["w"]
+            else:
+                t["h"] = 0.35 * dev["film"]["h"]
         cases.append({"device": dev, "post": post, "seed": int(rng.integers(1 << 30)), "cost": {"small": 5, "medium": 15, "large": 60}[size]})
     return cases
 
@@ -294,6 +313,22 @@ def run_case(spec):
             dev.make_mesh(max_edge_length=m["max_edge_length"] * float(rng.choice([0.7, 1.4])), smooth=int(rng.choice([0, 3])))
             cx.cnt("post_operation_checks")
             check_mesh(cx, dev, "after_remesh")
+        elif post == "roundtrip":
+            import os
+            import tempfile
+
+            import tdgl
+
+            tmp = tempfile.mkdtemp(prefix="vt_c07_")
+            try:
+                dev.to_hdf5(os.path.join(tmp, "dev.h5"))
+                dev2 = tdgl.Device.from_hdf5(os.path.join(tmp, "dev.h5"))
+                cx.cnt("post_operation_checks")
+                check_mesh(cx, dev2, "after_hdf5_roundtrip")
+            finally:
+                import shutil
+
+                shutil.rmtree(tmp, ignore_errors=True)
         elif post == "translate_inplace":
             W = float(np.ptp(dev.film.points[:, 0]))
             dev.translate(dx=float(rng.uniform(-2, 2)) * W, dy=float(rng.uniform(-2, 2)) * W, inplace=True)
@@ -315,6 +350,6 @@ def run_case(spec):
     d = spec["device"]
     return {"violations": cx.V, "counters": cx.C, "worst": cx.W, "observations": {"skipped_" + k: v for k, v in cx.skip.items()},
             "classes": ["film=" + d["film"]["kind"], f"holes={len(d['holes'])}", f"terminals={len(d['terminals'])}", f"smooth={d['mesh']['smooth']}", "post=" + str(post),
-                        "nonconvex_hole" if any(h.get("kind") == "union" for h in d["holes"]) else "convex_or_no_hole", "units=" + d["length_units"]],
+                        "nonconvex_hole" if any(h.get("nonconvex") for h in d["holes"]) else "convex_or_no_hole", "units=" + d["length_units"]],
             "nontrivial": frac >= 0.5,
             "sample": {"sites": int(len(dev.mesh.sites)), "eligible_fraction": round(frac, 3), "skipped": cx.skip, "worst_over_gate": {k: round(v, 6) for k, v in cx.W.items()}}}
